@@ -38,12 +38,26 @@ def dedupe(rd, op, report, extra=(), target=None, **kw):
     return core.run_fclones(rd, av, stdin=report, **kw)
 
 
-_PROC = re.compile(rb"(?:Processed|Would process) (\d+) files and reclaim(?:ed)? (?:up to )?([0-9.]+ [A-Za-z]+)")
+_NUM = re.compile(rb"(?<![\w.:])(\d+)(?![\w.:\]])")
+_AMT = re.compile(rb"([0-9][0-9.]* ?[KMGTP]?i?B)\b")
+
+
+def summary(res):
+    """(files, amount text) of the final summary line - the last stderr line that speaks about
+    reclaimed space - or None.  Tolerant to rewording of the message."""
+    for line in reversed(res.err.split(b"\n")):
+        if b"reclaim" in line.lower():
+            body = line.split(b"]", 1)[-1]           # drop a leading [timestamp]
+            m = _NUM.search(body)
+            a = _AMT.search(body)
+            if m:
+                return int(m.group(1)), (a.group(1) if a else b"")
+    return None
 
 
 def processed_count(res):
-    m = _PROC.search(res.err)
-    return int(m.group(1)) if m else None
+    s_ = summary(res)
+    return s_[0] if s_ else None
 
 
 TEMP_RE = re.compile(rb"^(.*)\.([A-Za-z0-9]{24})$")
@@ -61,6 +75,25 @@ def temp_siblings(inv, rel):
 
 def mask_temp(p):
     return re.sub(rb"\.[A-Za-z0-9]{24}(?=$|/)", b".<tmp>", p)
+
+
+def temp_owner(p, originals):
+    """If `p` is not one of `originals` but a sibling whose name extends the name of one of them
+    (fclones' temporary names are `<name><something>` in the same directory, whatever the format),
+    return that original; else None."""
+    if p in originals:
+        return None
+    d, nm = os.path.split(p)
+    for k in range(len(nm) - 1, 0, -1):
+        cand = os.path.join(d, nm[:k])
+        if cand in originals:
+            return cand
+    return None
+
+
+def mask_temp_of(p, originals):
+    o = temp_owner(p, originals)
+    return (o + b".<tmp>") if o is not None else p
 
 
 def trace_sig(rd, traces, verdict=""):
